@@ -6,17 +6,18 @@ namespace JoblibModel.Store
 section
 variable {π : Par} {s : Bool} {lvl : Level} {me : Nat} {R : FS → FS → Prop} {strong : Prop}
 
-theorem dir_keep_unlink {fs : FS} {q t : Path} (h : IsDirAt q fs) : IsDirAt q (apply (.unlink t) fs).2 := by
+theorem dir_keep_unlink {fs : FS} {q t : Path} {g : Option Nat} (h : IsDirAt q fs) : IsDirAt q (apply (.unlink t g) fs).2 := by
   obtain ⟨j, hj⟩ := h
-  rcases unlink_spec t fs with ⟨e, _⟩ | ⟨i0, c0, ht, _, _, _, hg⟩
+  rcases unlink_spec t _ fs with ⟨e, _⟩ | ⟨i0, c0, ht, _, _, _, _, hg⟩
   · rw [e]; exact ⟨j, hj⟩
   · by_cases h0 : q = []
     · subst h0; exact ⟨0, by simp⟩
     · exact ⟨j, by rw [hg, getUpd_ne h0 (by rintro rfl; rw [hj] at ht; cases ht)]; exact hj⟩
 
-theorem dir_keep_rmdir {fs : FS} {q t : Path} (h : IsDirAt q fs) (hne : q ≠ t) : IsDirAt q (apply (.rmdir t) fs).2 := by
+theorem dir_keep_rmdir {fs : FS} {q t : Path} {g : Option Nat} (h : IsDirAt q fs) (hne : q ≠ t) :
+    IsDirAt q (apply (.rmdir t g) fs).2 := by
   obtain ⟨j, hj⟩ := h
-  rcases rmdir_spec t fs with ⟨e, _⟩ | ⟨_, _, _, _, _, _, _, hg⟩
+  rcases rmdir_spec t _ fs with ⟨e, _⟩ | ⟨_, _, _, _, _, _, _, hg⟩
   · rw [e]; exact ⟨j, hj⟩
   · by_cases h0 : q = []
     · subst h0; exact ⟨0, by simp⟩
@@ -27,11 +28,11 @@ theorem entry_below (a : Nat) : Below pLoc (pEntry a) := ⟨⟨[.mod, .func, .en
 
 theorem rmGood_inv_func (hW : World π s lvl me R) : RmGood (R := R) (OwnG π me strong) (Inv π s) pFunc :=
   ⟨stable_sub hW inv_stable_env,
-   fun fs t h ht => ⟨inv_apply h (own_unlink (π := π) (me := me) (strong := strong) func_below ht).1,
+   fun fs t g h ht => ⟨inv_apply h (own_unlink (π := π) (me := me) (strong := strong) func_below ht).1,
                      inv_apply h (own_rmdir (π := π) (me := me) (strong := strong) func_below ht).1⟩,
    fun fs o hw e => own_obs hw e,
-   fun fs t _ ht => own_unlink func_below ht,
-   fun fs t _ ht => own_rmdir func_below ht⟩
+   fun fs t g _ ht => own_unlink func_below ht,
+   fun fs t g _ ht => own_rmdir func_below ht⟩
 
 /-- the standing assertion of a call once the function directory is known -/
 def Sf (π : Par) (s : Bool) (lvl : Level) (fs : FS) : Prop := Inv π s fs ∧ DK lvl pFunc fs
@@ -42,8 +43,8 @@ theorem ownFull_sf : OwnFull π me (Sf π s lvl) := ownFull_inv.and_dk pFunc
 
 theorem rmGood_sf_entry (hW : World π s lvl me R) (a : Nat) :
     RmGood (R := R) (OwnG π me strong) (Sf π s lvl) (pEntry a) := by
-  refine ⟨(good_sf hW).stable, fun fs t h ht => ?_, fun fs o hw e => own_obs hw e,
-    fun fs t _ ht => own_unlink (entry_below a) ht, fun fs t _ ht => own_rmdir (entry_below a) ht⟩
+  refine ⟨(good_sf hW).stable, fun fs t g h ht => ?_, fun fs o hw e => own_obs hw e,
+    fun fs t g _ ht => own_unlink (entry_below a) ht, fun fs t g _ ht => own_rmdir (entry_below a) ht⟩
   have hne : pFunc ≠ t := by
     rintro rfl
     have := ht.length_le
@@ -641,23 +642,23 @@ theorem evict_up : ∀ fs o, (∀ p i d, o ≠ .write p i d) → Allowed π .cal
 
 theorem rmGood_inv_entry_evict (hW : World π s lvl me R) (a : Nat) :
     RmGood (R := R) (EvictG π me) (Inv π s) (pEntry a) := by
-  refine ⟨(good_inv hW).stable, fun fs t h ht => ?_, fun fs o hw e => ⟨.noop o hw e, codeSafe_nw hw⟩,
-    fun fs t h ht => ⟨?_, codeSafe_nw (by intro _ _ _ e; cases e)⟩,
-    fun fs t _ ht => ⟨.rmdirE a t (by decide) ht, codeSafe_nw (by intro _ _ _ e; cases e)⟩⟩
+  refine ⟨(good_inv hW).stable, fun fs t g h ht => ?_, fun fs o hw e => ⟨.noop o hw e, codeSafe_nw hw⟩,
+    fun fs t g h ht => ⟨?_, codeSafe_nw (by intro _ _ _ e; cases e)⟩,
+    fun fs t g _ ht => ⟨.rmdirE a t g (by decide) ht, codeSafe_nw (by intro _ _ _ e; cases e)⟩⟩
   · have hb := below_trans (entry_below a) ht
-    exact ⟨inv_apply h (Allowed.unlinkC (π := π) (who := fun x => x = me) t rfl hb),
-           inv_apply h (Allowed.rmdirC (π := π) (who := fun x => x = me) t rfl hb)⟩
+    exact ⟨inv_apply h (Allowed.unlinkC (π := π) (who := fun x => x = me) t g rfl hb),
+           inv_apply h (Allowed.rmdirC (π := π) (who := fun x => x = me) t g rfl hb)⟩
   · by_cases hte : t = pEntry a
     · subst hte
       -- the entry directory itself is never a file: `unlink` on it changes nothing
       refine .noop _ (by intro _ _ _ e; cases e) ?_
       cases hg : fs.get (pEntry a) with
-      | none => simp [apply, hg]
+      | none => simp only [apply, hg]; split <;> rfl
       | some nd =>
         cases nd with
-        | dir j => simp [apply, hg]
+        | dir j => simp only [apply, hg]; split <;> rfl
         | file i c => exact absurd (Or.inr (Or.inr (Or.inr (Or.inr ⟨a, rfl⟩)))) (h.typF _ _ _ hg)
-    · exact .unlinkE a t (by decide) ⟨ht, hte⟩
+    · exact .unlinkE a t g (by decide) ⟨ht, hte⟩
 
 /-- `Memory.reduce_size`: every call it makes is one an evicting participant may make; the invariant is kept -/
 theorem reduceProc_sat (hW : World π s lvl me R) (c : Cfg) (victims : List Nat) :
@@ -681,11 +682,11 @@ theorem reduceProc_sat (hW : World π s lvl me R) (c : Cfg) (victims : List Nat)
 theorem rmGood_inv_clear (hW : World π s lvl me R) (p0 : Path) (hb : Below pLoc p0) :
     RmGood (R := R) (OwnG π me strong) (Inv π s) p0 :=
   ⟨(good_inv hW).stable,
-   fun fs t h ht => ⟨inv_apply h (own_unlink (π := π) (me := me) (strong := strong) hb ht).1,
+   fun fs t g h ht => ⟨inv_apply h (own_unlink (π := π) (me := me) (strong := strong) hb ht).1,
                      inv_apply h (own_rmdir (π := π) (me := me) (strong := strong) hb ht).1⟩,
    fun fs o hw e => own_obs hw e,
-   fun fs t _ ht => own_unlink hb ht,
-   fun fs t _ ht => own_rmdir hb ht⟩
+   fun fs t g _ ht => own_unlink hb ht,
+   fun fs t g _ ht => own_rmdir hb ht⟩
 
 /-- `disk.delete_folder` -/
 theorem deleteFolder_sat (hW : World π s lvl me R) (c : Cfg) (p0 : Path) (hb : Below pLoc p0) :
@@ -696,8 +697,8 @@ theorem deleteFolder_sat (hW : World π s lvl me R) (c : Cfg) (p0 : Path) (hb : 
   | zero => exact .raise fun fs h => h
   | succ fuel ih =>
     unfold deleteFolder
-    refine Sat.obs (fun _ _ => True) (fun fs _ => own_obs (by intro _ _ _ e; cases e) (opendir_noop _ fs))
-      (opendir_noop _) (fun _ _ => trivial) hst (fun _ _ _ _ _ => trivial) fun r => ?_
+    refine Sat.obs (fun _ _ => True) (fun fs _ => own_obs (by intro _ _ _ e; cases e) (opendir_noop _ _ fs))
+      (opendir_noop _ _) (fun _ _ => trivial) hst (fun _ _ _ _ _ => trivial) fun r => ?_
     cases r with
     | fd i =>
       unfold scandir
@@ -739,8 +740,8 @@ theorem clearProc_sat (hW : World π s lvl me R) (c : Cfg) :
   refine Sat.bind ((configure_sat (G := OwnG π me strong) own_up'
     (fun fs i d hl ha => own_write_other hl (by simp [pGit, pCode]) ha) hW (good_inv hW) c).post (fun _ _ h => h.1)
     (fun _ _ h => h.1)) fun _ => ?_
-  refine Sat.obs (fun _ _ => True) (fun fs _ => own_obs (by intro _ _ _ e; cases e) (opendir_noop _ fs))
-    (opendir_noop _) (fun _ _ => trivial) hst (fun _ _ _ _ _ => trivial) fun r => ?_
+  refine Sat.obs (fun _ _ => True) (fun fs _ => own_obs (by intro _ _ _ e; cases e) (opendir_noop _ _ fs))
+    (opendir_noop _ _) (fun _ _ => trivial) hst (fun _ _ _ _ _ => trivial) fun r => ?_
   cases r with
   | fd i =>
     unfold scandir
